@@ -563,6 +563,36 @@ impl CompressorOxide {
         self.dict.update_flags(flags);
     }
 
+    /// Verification hook: take the events recorded since the last call.
+    /// `[1, flush, payload_bytes, produced_bytes, local, block_index_before, ret, lookahead_span]`
+    /// per `flush_block`; `[2, flush, in_len, out_len, status, src_pos, out_buf_ofs, 0]` per
+    /// `compress_inner` return.
+    #[cfg(miniz_oxide_verif)]
+    pub fn verif_take_trace(&mut self) -> crate::alloc::vec::Vec<[u64; 8]> {
+        core::mem::take(&mut self.params.verif_trace)
+    }
+
+    /// Verification hook: read-only copy of the staging and dictionary counters
+    /// `[flush_ofs, flush_remaining, finished, block_index, saved_bits_in, lz.total_bytes,
+    /// lookahead_pos, lookahead_size, dict.size, code_buf_dict_pos, src_pos, out_buf_ofs]`.
+    #[cfg(miniz_oxide_verif)]
+    pub fn verif_snapshot(&self) -> [u64; 12] {
+        [
+            self.params.flush_ofs as u64,
+            self.params.flush_remaining as u64,
+            self.params.finished as u64,
+            self.params.block_index as u64,
+            self.params.saved_bits_in as u64,
+            self.lz.total_bytes as u64,
+            self.dict.lookahead_pos as u64,
+            self.dict.lookahead_size as u64,
+            self.dict.size as u64,
+            self.dict.code_buf_dict_pos as u64,
+            self.params.src_pos as u64,
+            self.params.out_buf_ofs as u64,
+        ]
+    }
+
     /// Check the number of unwritten bits after the last flush.
     /// After a `NoSync` flush it can be used to test whether the
     /// stream is aligned with a byte boundary.
@@ -1527,6 +1557,10 @@ pub(crate) struct ParamsOxide {
     pub saved_bits_in: u32,
 
     pub local_buf: Box<LocalBuf>,
+
+    /// Verification hook: events recorded by `flush_block` and `compress_inner`.
+    #[cfg(miniz_oxide_verif)]
+    pub verif_trace: crate::alloc::vec::Vec<[u64; 8]>,
 }
 
 impl ParamsOxide {
@@ -1550,6 +1584,8 @@ impl ParamsOxide {
             saved_bit_buffer: 0,
             saved_bits_in: 0,
             local_buf: Box::default(),
+            #[cfg(miniz_oxide_verif)]
+            verif_trace: crate::alloc::vec::Vec::new(),
         }
     }
 
@@ -1787,6 +1823,11 @@ pub(crate) fn flush_block(
     callback: &mut CallbackOxide,
     flush: TDEFLFlush,
 ) -> Result<i32> {
+    #[cfg(miniz_oxide_verif)]
+    let (verif_payload, verif_span) = (
+        d.lz.total_bytes as u64,
+        (d.dict.lookahead_pos - d.dict.code_buf_dict_pos) as u64,
+    );
     let mut saved_buffer;
     {
         let mut output = callback
@@ -1932,6 +1973,23 @@ pub(crate) fn flush_block(
         d.params.saved_bits_in = saved_buffer.bits_in;
     }
 
+    #[cfg(miniz_oxide_verif)]
+    {
+        let (verif_pos, verif_local) = (saved_buffer.pos as u64, saved_buffer.local as u64);
+        let verif_ret = callback.flush_output(saved_buffer, &mut d.params);
+        d.params.verif_trace.push([
+            1,
+            flush as u64,
+            verif_payload,
+            verif_pos,
+            verif_local,
+            d.params.block_index as u64,
+            verif_ret as i64 as u64,
+            verif_span,
+        ]);
+        return Ok(verif_ret);
+    }
+    #[cfg(not(miniz_oxide_verif))]
     Ok(callback.flush_output(saved_buffer, &mut d.params))
 }
 
@@ -2416,6 +2474,27 @@ pub fn compress(
     out_buf: &mut [u8],
     flush: TDEFLFlush,
 ) -> (TDEFLStatus, usize, usize) {
+    #[cfg(miniz_oxide_verif)]
+    {
+        let (verif_in, verif_out) = (in_buf.len() as u64, out_buf.len() as u64);
+        let res = compress_inner(
+            d,
+            &mut CallbackOxide::new_callback_buf(in_buf, out_buf),
+            flush,
+        );
+        d.params.verif_trace.push([
+            2,
+            flush as u64,
+            verif_in,
+            verif_out,
+            res.0 as i64 as u64,
+            res.1 as u64,
+            res.2 as u64,
+            0,
+        ]);
+        return res;
+    }
+    #[cfg(not(miniz_oxide_verif))]
     compress_inner(
         d,
         &mut CallbackOxide::new_callback_buf(in_buf, out_buf),
